@@ -31,6 +31,7 @@ PROP_MODULES = {
     "C16": ["c16"],
     "C20": ["c20"],
     "C14": ["c14"],
+    "C17": ["c17"],
 }
 
 
